@@ -1,5 +1,5 @@
 From Coq Require Import Extraction ExtrOcamlBasic.
-From SV Require Import Base.Bytes Base.IO Model.Headers Model.Head Spec.Rfc7230.
+From SV Require Import Base.Bytes Base.IO Model.Headers Model.Head Spec.Rfc7230 Model.RustStr Model.Request Spec.Framing.
 Extraction Language OCaml.
 Extraction "c02_model.ml" try_read fb_writable crlf2 render_head must_accept canonical_target
-  url_canonical_at oracle_c02 oracle_c02_roundtrip.
+  url_canonical_at oracle_c02 oracle_c02_roundtrip request_of_head oracle_c14_req.
